@@ -93,7 +93,7 @@ def run(ctx):
     skipped = [j for j in jsons if j["outcome"] == "compile_error" and not j["file"]["opts"]["yaml"]]
     ctx.cov.update({
         "evaluations": len(jsons),
-        "definition_files": len({j["pkg"] for j in jsons}),
+        "definition_files": len({(j["pkg"], hash(j["file"].get("source"))) for j in jsons}),
         "documents_decoded": len(docs),
         "documents_by_codec": gl.hist(d["codec"] for d in docs),
         "documents_by_result": gl.hist(d["res"].split(":")[0] for d in docs if d.get("called")),
